@@ -37,10 +37,19 @@ ObjOf(va, vb) == OV((IF va = "absent" THEN <<>> ELSE << <<KA, SV(IF va = "good" 
                     \o (IF vb = "absent" THEN <<>> ELSE << <<KB, SV(IF vb = "good" THEN X ELSE Y)>> >>))
 Objs == {ObjOf(a, b) : a \in Opt, b \in Opt}
 Elems == Objs \cup {SV(X), AV(<<>>)}
-Arrays == UNION {[1..n -> Elems] : n \in 0..MaxArr}
 DocOf(v) == OV(<< <<F, v>> >>)
 ObjDocs == SetSeq({DocOf(o) : o \in Objs}) \o <<DocOf(SV(X)), OV(<<>>)>>
-ArrDocs == SetSeq({DocOf(AV(a)) : a \in Arrays})
+\* every array of 0..MaxArr elements, enumerated by index arithmetic (a recursive set-to-sequence
+\* over 1464 arrays overflows the Java stack)
+ElemSeq == SetSeq(Elems)
+NE == Len(ElemSeq)
+RECURSIVE Pow(_, _)
+Pow(b, n) == IF n = 0 THEN 1 ELSE b * Pow(b, n - 1)
+ArrOf(n, k) == [j \in 1..n |-> ElemSeq[((k \div Pow(NE, j - 1)) % NE) + 1]]
+ArrsOfLen(n) == [k \in 1..Pow(NE, n) |-> DocOf(AV(ArrOf(n, k - 1)))]
+RECURSIVE ArrsUpTo(_)
+ArrsUpTo(n) == IF n = 0 THEN ArrsOfLen(0) ELSE ArrsUpTo(n - 1) \o ArrsOfLen(n)
+ArrDocs == ArrsUpTo(MaxArr)
 
 DottedLaw == \A i \in 1..(Len(ObjDocs) - 2) :
                 LangVerdicts(NestedSrc, ObjDocs[i]) = LangVerdicts(DottedSrc, ObjDocs[i])
